@@ -353,7 +353,13 @@ fn gen_forest(r: &mut Rng, enc: Enc, target_n: usize, allow_unfollowed: bool) ->
                         loc_used = true;
                         let mut plain = write::Expression::new();
                         plain.op_reg(Register(0));
-                        let list = if enc.version >= 5 {
+                        let list = if enc.version >= 5 && r.chance(1, 3) {
+                            // the reference is carried by a DW_LLE_default_location entry only
+                            write::LocationList(vec![
+                                write::Location::StartLength { begin: write::Address::Constant(0x20), length: 4, data: plain },
+                                write::Location::DefaultLocation { data: expr },
+                            ])
+                        } else if enc.version >= 5 {
                             write::LocationList(vec![
                                 write::Location::StartLength { begin: write::Address::Constant(0x20), length: 4, data: plain },
                                 write::Location::StartEnd { begin: write::Address::Constant(0x30), end: write::Address::Constant(0x38), data: expr },
